@@ -60,7 +60,7 @@ CLAIMS.update({
     'C13': ('Theorems for every PIN of 4..12 digits, every PAN of >= 13 digits, every fill < 2^64: the code\'s string/big-integer construction equals the nibble-level ISO 9564 '
             'spec (formats 0 and 4) and rebuilding returns the PIN; encrypted forms = E(key, clear block) and decrypt back, for any cipher pair with D(E x) = x that preserves length. '
             'Correspondence + independent nibble construction, from-scratch DES/3DES/AES reference checked on FIPS vectors, direct ECB calls, recorded random draws.',
-            TB + 'Triple-DES is inside the model (model/Des.v: FIPS 46-3 / SP 800-67, inverse law proved for every key and data, props/C13tdes.v instantiates the theorem; the extracted cipher is compared with cryptography on FIPS vectors and random keys each run); AES is external (Section variables E, D with D(E x) = x and length preservation; cryptography is tested against FIPS 197 vectors by a from-scratch reference, not proved); freshness of the random source is not modelled (observed: one fill per block object, different fills for separate blocks)',
+            TB + 'Triple-DES and AES are inside the model (model/Des.v: FIPS 46-3 / SP 800-67; model/Aes.v: FIPS 197; D(E x) = x and length preservation proved for every key and data; props/C13tdes.v, props/C13aes.v instantiate the theorem; the extracted ciphers are compared with the cryptography package on FIPS vectors and random keys each run); the general theorem stays stated for any such cipher pair; freshness of the random source is not modelled (observed: one fill per block object, different fills for separate blocks)',
             'Coq proof (nibble xor = N.lxor bridge, digit/hex lemmas) + differential correspondence + reference ciphers', '6/C13'),
     'C14': ('Theorems: TSP = 11 rightmost PAN digits without check digit + key index + leftmost 4 PIN digits; decimalisation = Visa two-scan spec, always 4 decimal digits, for every 16-nibble '
             'ciphertext; key-part combination = XOR (permutation invariant, duplicates cancel, 32 hex digits); KCV and encrypted zone key as published. Correspondence with cipher stubs driving 0..4 substituted digits.',
